@@ -12,21 +12,27 @@ From Refinery Require Export Monitor.CollCase_coll.
    17  a late span was forwarded with a reason other than late_span *)
 Definition sendby_of (b : amap trace) (t : N) : Z := t_sendby (lookup_tr b t).
 
+Definition tick_checks (ts : tstate) (it : item) (wi : nat) (lf : list N) : codes :=
+  let now := i_now it in let c := ts_cfg ts in
+  let b := tb ts wi in
+  let rem := drop_keys b lf in
+  let me := c_me c in
+  cond (forallb (fun t => sendby_of b t <=? now) lf) 10 ++
+  cond (negb (existsb (fun kv => t_sendby (snd kv) <=? now) rem) ||
+        ((0 <? me) && (me <=? Z.of_nat (length lf)))) 11 ++
+  cond ((me <=? 0) || (Z.of_nat (length lf) <=? me)) 12 ++
+  cond (forallb (fun t => forallb (fun kv => (now <? t_sendby (snd kv)) || (sendby_of b t <=? t_sendby (snd kv))) rem) lf) 13 ++
+  cond (forallb (fun e => negb (mem_N (ev_tid e) lf) ||
+                          N.eqb (ev_reason e) (tick_reason c (lookup_tr b (ev_tid e)))) (o_fwd it)) 14.
+
 Definition c03_item (p : tstate * item) : codes :=
   let ts := fst p in let it := snd p in
   let now := i_now it in let c := ts_cfg ts in
   match i_op it with
-  | ITick w lf =>
-      let b := tb ts (N.to_nat w) in
-      let rem := drop_keys b lf in
-      let me := c_me c in
-      cond (forallb (fun t => sendby_of b t <=? now) lf) 10 ++
-      cond (negb (existsb (fun kv => t_sendby (snd kv) <=? now) rem) ||
-            ((0 <? me) && (me <=? Z.of_nat (length lf)))) 11 ++
-      cond ((me <=? 0) || (Z.of_nat (length lf) <=? me)) 12 ++
-      cond (forallb (fun t => forallb (fun kv => (now <? t_sendby (snd kv)) || (sendby_of b t <=? t_sendby (snd kv))) rem) lf) 13 ++
-      cond (forallb (fun e => negb (mem_N (ev_tid e) lf) ||
-                              N.eqb (ev_reason e) (tick_reason c (lookup_tr b (ev_tid e)))) (o_fwd it)) 14
+  | ITick w lf => tick_checks ts it (N.to_nat w) lf
+  | ITickAll lefts =>
+      flat_map (fun wi => tick_checks ts it wi (nth wi lefts [])) (seq 0 (length (ts_bufs ts))) ++
+      cond (forallb (fun e => existsb (mem_N (ev_tid e)) lefts) (o_fwd it)) 14
   | ISpan w s =>
       let wi := N.to_nat w in
       let after := nth wi (o_bufs it) [] in
